@@ -309,7 +309,7 @@ func Record(args []string) {
 	fs := flag.NewFlagSet("walk record", flag.ExitOnError)
 	out := fs.String("out", "", "trace file")
 	seed := fs.Int64("seed", 1, "seed")
-	repo := fs.String("repo", "/repo", "repository (js test literals are harvested from it)")
+	repo := fs.String("repo", reg.Repo(), "repository (js test literals are harvested from it)")
 	nh := fs.Int("harvest", 400, "harvested literals to try")
 	ncomb := fs.Int("combos", 300, "random combinations of snippets to try")
 	extra := fs.String("extra", "", "optional ndjson {input:[bytes]} of further programs (e.g. from the grammar generators)")
